@@ -25,8 +25,8 @@ tvars == <<l, reg, leases, glob, bad, skipping, skipped>>
 
 \* JSON -> vocabulary of ClientsCore.
 Cl(c) == [name |-> c.name, ids |-> ToSet(c.ids), own |-> c.own, bs |-> c.bs,
-          vals |-> c.vals, svcs |-> ToSet(c.svcs)]
-Gl(g) == [vals |-> g.vals, svcs |-> ToSet(g.svcs)]
+          vals |-> c.vals, svcs |-> ToSet(c.svcs), pause |-> c.pause]
+Gl(g) == [vals |-> g.vals, svcs |-> ToSet(g.svcs), pause |-> g.pause]
 
 SameClient(x, name, rids) == x.name = name /\ (name = "" \/ x.ids = ToSet(rids))
 
@@ -55,7 +55,7 @@ Res(ln) ==
       \* start-up from a configuration file (first line after a reset)
       [] ln.op = "load" -> LoadRes([i \in DOMAIN ln.cs |-> Cl(ln.cs[i])])
 
-Init == /\ l = 1 /\ reg = {} /\ leases = <<>> /\ glob = [vals |-> <<>>, svcs |-> {}]
+Init == /\ l = 1 /\ reg = {} /\ leases = <<>> /\ glob = [vals |-> <<>>, svcs |-> {}, pause |-> FALSE]
         /\ bad = {} /\ skipping = FALSE /\ skipped = 0
 
 Step ==
